@@ -21,7 +21,10 @@ CONSTANTS
   \* @type: Int;
   Eps,
   \* @type: Bool;
-  Clip
+  Clip,
+  \* TRUE: test_util.solve_adaptive_save_every_step (one checkpoint = the final time, every accepted step is appended)
+  \* @type: Bool;
+  EveryStep
 
 VARIABLES
   \* @type: Str;
@@ -65,18 +68,22 @@ VARIABLES
   \* @type: Int;
   lastt,
   \* @type: Int;
-  lastck
+  lastck,
+  \* number of accepted steps
+  \* @type: Int;
+  nacc
 
-gvars == <<pc, t1, sft, ifrt, dt, rsft, rdt, rpropt, racc, rused, solkind, solt, sola, solb, nemit, lastt, lastck>>
+gvars == <<pc, t1, sft, ifrt, dt, rsft, rdt, rpropt, racc, rused, solkind, solt, sola, solb, nemit, lastt, lastck, nacc>>
 
-CInit == Eps \in Nat /\ Clip \in BOOLEAN
+CInit == Eps \in Nat /\ Clip \in BOOLEAN /\ EveryStep \in BOOLEAN
 
 IsBefore == sft + Eps < t1
 IsAfter  == sft > t1 + Eps
 Min2(a, b) == IF a <= b THEN a ELSE b
 
 Init ==
-  /\ pc = "loop_enter"
+  /\ pc = IF EveryStep THEN "while_test" ELSE "loop_enter"
+  /\ nacc = 0
   /\ sft \in Int /\ ifrt = sft
   /\ t1 \in Int /\ t1 > sft
   /\ dt \in Int /\ dt > 0
@@ -86,7 +93,7 @@ Init ==
 
 UnchangedR   == UNCHANGED <<rsft, rdt, rpropt, racc, rused>>
 UnchangedSol == UNCHANGED <<solkind, solt, sola, solb>>
-UnchangedOut == UNCHANGED <<nemit, lastt, lastck>>
+UnchangedOut == UNCHANGED <<nemit, lastt, lastck, nacc>>
 
 LoopEnter ==
   /\ pc = "loop_enter"
@@ -114,7 +121,8 @@ RloopExit ==
   /\ dt' = rdt /\ sft' = rpropt /\ ifrt' = rsft
   /\ rsft' = 0 /\ rdt' = 0 /\ rpropt' = 0 /\ racc' = FALSE /\ rused' = 0
   /\ pc' = "interp"
-  /\ UNCHANGED t1 /\ UnchangedSol /\ UnchangedOut
+  /\ nacc' = nacc + 1
+  /\ UNCHANGED <<t1, nemit, lastt, lastck>> /\ UnchangedSol
 
 InterpSkip ==
   /\ pc = "interp" /\ IsBefore
@@ -137,26 +145,42 @@ InterpAt ==
   /\ UNCHANGED <<t1, sft, dt>> /\ UnchangedR /\ UnchangedOut
 
 Continue ==
+  /\ ~EveryStep
   /\ pc = "loop_return" /\ IsBefore
   /\ pc' = "loop_enter"
   /\ UNCHANGED <<t1, sft, ifrt, dt>> /\ UnchangedR /\ UnchangedSol /\ UnchangedOut
 
 Emit ==
+  /\ ~EveryStep
   /\ pc = "loop_return" /\ ~IsBefore
+  /\ nacc' = nacc
   /\ nemit' = nemit + 1 /\ lastt' = solt /\ lastck' = t1
   /\ \/ pc' = "done" /\ t1' = t1
      \/ pc' = "loop_enter" /\ t1' \in Int /\ t1' > t1
   /\ UNCHANGED <<sft, ifrt, dt>> /\ UnchangedR /\ UnchangedSol
 
+\* `while state.step_from.t + eps < t1:` of the save-every-step driver
+WhileTest ==
+  /\ EveryStep /\ pc = "while_test"
+  /\ pc' = IF IsBefore THEN "loop_enter" ELSE "done"
+  /\ UNCHANGED <<t1, sft, ifrt, dt>> /\ UnchangedR /\ UnchangedSol /\ UnchangedOut
+
+AppendStep ==
+  /\ EveryStep /\ pc = "loop_return"
+  /\ nemit' = nemit + 1 /\ lastt' = solt /\ lastck' = t1 /\ nacc' = nacc
+  /\ pc' = "while_test"
+  /\ UNCHANGED <<t1, sft, ifrt, dt>> /\ UnchangedR /\ UnchangedSol
+
 Next ==
   \/ LoopEnter \/ RloopBody \/ RloopExit
   \/ InterpSkip \/ InterpBeyond \/ InterpAt
-  \/ Continue \/ Emit
+  \/ Continue \/ Emit \/ WhileTest \/ AppendStep
 
 Spec == Init /\ [][Next]_gvars
 
 \* =============================== the inductive invariant ====================
-PcOK == pc \in {"loop_enter", "rloop", "interp", "loop_return", "done"}
+PcOK == /\ pc \in {"loop_enter", "rloop", "interp", "loop_return", "done", "while_test"}
+        /\ (pc = "while_test" => EveryStep)
 
 Positive == dt > 0 /\ Eps >= 0 /\ nemit >= 0
 
@@ -191,10 +215,19 @@ SolKinds == solkind \in {"none", "sf", "interp", "at"}
 
 \* every emitted solution is the report of its checkpoint: at the checkpoint if interpolated, within eps otherwise
 EmittedOK ==
-  nemit > 0 => (lastt - lastck <= Eps /\ lastck - lastt <= Eps)
+  (~EveryStep /\ nemit > 0) => (lastt - lastck <= Eps /\ lastck - lastt <= Eps)
 \* checkpoints are emitted in increasing order
 EmitOrder == (nemit > 0 /\ pc # "done") => lastck <= t1
-DoneOK == pc = "done" => nemit > 0
+DoneOK == (~EveryStep /\ pc = "done") => nemit > 0
+
+\* save-every-step: every call of loop() takes exactly one step (an iteration that only interpolates would leave step_from
+\* unchanged and the Python while-loop would never end), and every accepted step is appended exactly once
+EveryStepAlwaysSteps == (EveryStep /\ pc = "loop_enter") => IsBefore
+EveryStepCounts ==
+  EveryStep =>
+    /\ nacc >= 0
+    /\ (pc \in {"while_test", "done", "loop_enter", "rloop"} => nemit = nacc)
+    /\ (pc \in {"interp", "loop_return"} => nemit + 1 = nacc)
 
 IndInv ==
   /\ PcOK /\ SolKinds /\ Positive
@@ -202,15 +235,16 @@ IndInv ==
   /\ InterpFromBeforeStepFrom /\ ClipNeverOvershoots /\ NoExtrapolation
   /\ SolOK
   /\ EmittedOK /\ EmitOrder /\ DoneOK
+  /\ EveryStepAlwaysSteps /\ EveryStepCounts
 
 \* the initial predicate of the inductive step: any state of the right type satisfying IndInv
 IndInit ==
-  /\ pc \in {"loop_enter", "rloop", "interp", "loop_return", "done"}
+  /\ pc \in {"loop_enter", "rloop", "interp", "loop_return", "done", "while_test"}
   /\ solkind \in {"none", "sf", "interp", "at"}
   /\ t1 \in Int /\ sft \in Int /\ ifrt \in Int /\ dt \in Int
   /\ rsft \in Int /\ rdt \in Int /\ rpropt \in Int /\ racc \in BOOLEAN /\ rused \in Int
   /\ solt \in Int /\ sola \in Int /\ solb \in Int
-  /\ nemit \in Int /\ lastt \in Int /\ lastck \in Int
+  /\ nemit \in Int /\ lastt \in Int /\ lastck \in Int /\ nacc \in Int
   /\ IndInv
 
 \* user-facing consequences (each implied by IndInv; checked separately so that a failure names the clause)
